@@ -91,6 +91,10 @@ static bool any_live_incomplete_unexpired(const session_table *t, uint64_t now_s
     }
     return false;
 }
+static bool any_live_incomplete(const session_table *t) {
+    for (int i = 0; i < N; i++) if (t->entries[i].valid && !t->entries[i].complete) return true;
+    return false;
+}
 static bool any_valid(const session_table *t) {
     for (int i = 0; i < N; i++) if (t->entries[i].valid) return true;
     return false;
@@ -104,7 +108,8 @@ void h_tick(void) {
     automata_tick(in.have_map ? M : 0, E, in.have_tab ? T : 0, &P);
     V_ASSERT(g_hello_calls <= 1, "C12: at most one periodic Hello per tick");
     if (g_hello_calls == 1) {
-        V_ASSERT(in.have_tab && purposeful, "C12: periodic Hello only while some live session is not yet complete");
+        V_ASSERT(in.have_tab && any_live_incomplete(T), "C12: periodic Hello only while the session table holds a session that is not yet complete");
+        (void)purposeful;
         V_ASSERT(!in.have_lasttx || in.last_tx == 0 || in.now_ms - in.last_tx >= 1000, "C12: periodic Hellos never less than one second apart");
         V_ASSERT(!in.have_lasttx || g_last_tx == in.now_ms, "C12: transmit timestamp updated to now on send");
         V_ASSERT(!(inactive_fired && in.have_tab), "C12: no periodic Hello in the tick that ends the session for inactivity");
